@@ -13,7 +13,7 @@ VARIABLE tree
 x == V("x")  y == V("y")  z == V("z")  bb == V("b")  uu == V("u")
 ff == V("f") gg == V("g") tt == V("t") oo == V("o")
 
-NumLeaves  == { x, y, z, KI(0), KI(2), KI(-1), K(FltV(3, 2)), uu }
+NumLeaves  == { x, y, z, KI(0), KI(1), KI(2), KI(-1), K(FltV(3, 2)), K(FltV(1, 1)), uu }
 BoolLeaves == { bb, K(BoolV(TRUE)) }
 Leaves == NumLeaves \cup BoolLeaves
 
